@@ -21,38 +21,102 @@ def hyps_of(path, obl):
     return hyps + list(obl.extra_hyps)
 
 
+# (engine, seed, share of the budget). z3's default combined solver picks its strategy from the timeout
+# value (a 20 ms proof became `unknown` under a 5 s limit but not under a 10 s one), so its slices are never
+# below 10 s; the plain SMT core (SimpleSolver) is insensitive to the limit and often complementary.
+SCHEDULE = (("default", "all", 0, 0.25), ("core", "rel", 0, 0.12), ("core", "all", 0, 0.13), ("default", "rel", 0, 0.25),
+            ("core", "rel", 11, 0.25))
+
+
 def discharge(path, obl, timeout_ms=10000, use_cvc5=True, extra=()):
-    v = _discharge(path, obl, obl.goal, timeout_ms, use_cvc5, extra)
-    if v.status != "discharged" and z3.is_and(obl.goal) and len(obl.goal.children()) > 1:
-        # a conjunction the solver cannot do at once: every conjunct separately (sound: all must be unsat)
-        total = v.secs
-        for g in obl.goal.children():
-            w = _discharge(path, obl, g, timeout_ms, use_cvc5, extra)
-            total += w.secs
-            if w.status != "discharged":
-                return Verdict(v.status, v.backend, total, v.detail + "; conjunct failed: " + w.detail)
-        return Verdict("discharged", "z3(split)", total)
-    return v
-
-
-def _discharge(path, obl, goal, timeout_ms, use_cvc5, extra):
-    """several short attempts with different seeds beat one long one: E-matching proofs here either
-    succeed in milliseconds or diverge, and which of the two can depend on instantiation order"""
+    """Restart schedule: E-matching proofs here either succeed in milliseconds or diverge, and which of
+    the two depends on instantiation order; several short attempts with different seeds, then a long
+    one, are both faster and far less load-sensitive than one long attempt. A conjunction is split into
+    its conjuncts (sound: all must be unsat) before the long attempts."""
+    goals = [obl.goal]
+    if z3.is_and(obl.goal) and len(obl.goal.children()) > 1:
+        goals = list(obl.goal.children())
     hyps = hyps_of(path, obl) + list(extra)
     axioms = base_axioms()
+    total = 0.0
+    backend = "z3"
+    for g in goals:
+        v = _attempts(axioms, hyps, g, timeout_ms, use_cvc5)
+        total += v.secs
+        if v.status != "discharged":
+            return Verdict(v.status, v.backend, total, v.detail + ("; (conjunct of a split goal)" if len(goals) > 1 else ""))
+        if v.backend != "z3":
+            backend = v.backend
+    return Verdict("discharged", backend + ("(split)" if len(goals) > 1 else ""), total)
+
+
+def _syms(t, memo):
+    """uninterpreted symbols of a term"""
+    i = t.get_id()
+    if i in memo:
+        return memo[i]
+    out = set()
+    memo[i] = out
+    if z3.is_quantifier(t):
+        out |= _syms(t.body(), memo)
+    elif z3.is_app(t):
+        d = t.decl()
+        if d.kind() == z3.Z3_OP_UNINTERPRETED:
+            out.add(d.name())
+        for c in t.children():
+            out |= _syms(c, memo)
+    return out
+
+
+def relevant(hyps, goal, hops=2):
+    """hypotheses connected to the goal through shared symbols, ignoring hub symbols that occur in more
+    than a quarter of all hypotheses (`self`, arguments, configuration). Sound: a subset."""
+    memo = {}
+    syms = [set(_syms(h, memo)) for h in hyps]
+    count = {}
+    for ss in syms:
+        for x in ss:
+            count[x] = count.get(x, 0) + 1
+    hubs = {x for x, n in count.items() if n > max(3, len(hyps) // 4)}
+    S = set(_syms(goal, memo)) - hubs
+    if not S:
+        return list(hyps)
+    chosen = [False] * len(hyps)
+    for _ in range(hops):
+        grew = False
+        for k, h in enumerate(hyps):
+            if not chosen[k] and (not (syms[k] - hubs) or (syms[k] - hubs) & S):
+                chosen[k] = True
+                new = syms[k] - hubs - S
+                if new:
+                    S |= new
+                    grew = True
+        if not grew:
+            break
+    return [h for k, h in enumerate(hyps) if chosen[k]]
+
+
+def _attempts(axioms, hyps, goal, timeout_ms, use_cvc5):
+    rel = relevant(hyps, goal, hops=2)
     total = 0.0
     detail = ""
     last = None
     s = None
-    for attempt, seed in enumerate((0, 11, 42)):
-        s = z3.Solver()
-        s.set("timeout", max(1000, timeout_ms // 3))
+    for attempt, (engine, which, seed, share) in enumerate(SCHEDULE):
+        if which == "rel" and len(rel) == len(hyps):
+            continue
+        if engine == "default":
+            s = z3.Solver()
+            s.set("timeout", max(10000, int(timeout_ms * share)))
+        else:
+            s = z3.SimpleSolver()
+            s.set("timeout", max(2000, int(timeout_ms * share)))
         if seed:
             s.set("random_seed", seed)
             s.set("smt.random_seed", seed)
         for a in axioms:
             s.add(a)
-        for h in hyps:
+        for h in (rel if which == "rel" else hyps):
             s.add(h)
         s.add(Not(goal))
         t = time.time()
@@ -60,16 +124,18 @@ def _discharge(path, obl, goal, timeout_ms, use_cvc5, extra):
         total += time.time() - t
         last = r
         if r == z3.unsat:
-            return Verdict("discharged", "z3" if attempt == 0 else "z3(seed %d)" % seed, total)
+            return Verdict("discharged", "z3" if attempt == 0 else "z3(%s,%s,seed %d)" % (engine, which, seed), total)
+        if r == z3.sat and which == "rel":
+            continue        # a model of a subset of the hypotheses says nothing
         if r == z3.sat:
             detail = "z3: sat"
             break
         detail = "z3: unknown (%s)" % s.reason_unknown()
     if use_cvc5:
-        v = cvc5_check(s, timeout_ms)
+        v = cvc5_check(s, min(timeout_ms, 15000))
         if v is not None:
             if v.status == "discharged":
-                return v
+                return Verdict("discharged", "cvc5", total + v.secs)
             detail += "; cvc5: " + v.detail
     return Verdict("failed" if last == z3.sat else "unknown", "z3", total, detail)
 
